@@ -29,6 +29,7 @@ type Opt struct {
 	Validate string   `json:"validate,omitempty"`
 	Required string   `json:"required"` // yes | no | cond
 	OneOf    []string `json:"oneof,omitempty"`
+	Range    []*int   `json:"range,omitempty"` // [gte, lte]
 }
 
 type Mech struct {
@@ -201,6 +202,18 @@ func structOpts(st *ast.StructType, self *pkgInfo, all map[string]*pkgInfo, impo
 				}
 			case strings.HasPrefix(part, "oneof="):
 				o.OneOf = strings.Fields(strings.TrimPrefix(part, "oneof="))
+			case strings.HasPrefix(part, "gte="), strings.HasPrefix(part, "lte="):
+				if n, err := strconv.Atoi(part[4:]); err == nil {
+					if o.Range == nil {
+						o.Range = []*int{nil, nil}
+					}
+
+					if part[0] == 'g' {
+						o.Range[0] = &n
+					} else {
+						o.Range[1] = &n
+					}
+				}
 			}
 		}
 
